@@ -89,10 +89,15 @@ def run_concern(pid: str, tier: str, seed: int, runs=None) -> dict:
         nprog += 1
         if ur.vr:
             solver_ms += ur.vr.smt_ms()
+        for (lab, ok, detail) in (u.wire_checks() if hasattr(u, 'em') else []):
+            ur.obligations.append(lab)
+            if not ok:
+                wf_ = Failure(u.name, lab, 'element QName in the emitted yaserde attribute differs from the WSDL binding: ' + detail, [], detail, props=[pid])
+                ur.failures.append(wf_)
         for ob in ur.obligations:
             res['obligations'].append(f'{u.name}:{ob}')
         for f in ur.failures:
-            if f.obligation.startswith('emitted::') or f.obligation.startswith('shape:') or f.obligation.startswith('sig:') or f.obligation.startswith('index:'):
+            if f.obligation.startswith(('emitted::', 'shape:', 'sig:', 'index:', 'wire:')):
                 f.unit = u.name
                 f.props = [pid]
                 import re as _re
